@@ -227,7 +227,7 @@ def shrink_history(h, i, fresh_last):
     for j, ok in enumerate(singles):
         if ok:
             return [h[j], target]
-    cur, budget = list(h[:i]), 16
+    cur, budget = list(h[:i]), 10
     j = len(cur) - 1
     while j >= 0 and budget > 0:
         cand = cur[:j] + cur[j + 1:]
@@ -291,7 +291,9 @@ def search(rng, tier, broken, corr):
                 kind = name if name.startswith("interpreter:") else "history"
                 found.setdefault((kind, tuple(diff_fields(o, f))), (name, h, i, o, f))
     failures = []
-    for (kind, differs), (name, h, i, o, f) in list(found.items())[:8]:
+    # a broken reset shows up in many gradings: three shrunk witnesses are enough (plus the interpreter probes)
+    items = [kv for kv in found.items() if kv[0][0] != "history"] + [kv for kv in found.items() if kv[0][0] == "history"][:3]
+    for (kind, differs), (name, h, i, o, f) in items:
         g = h[i]
         # the fresh result must itself be reproducible, otherwise this is not a history effect
         f2 = fresh_one(g)
